@@ -155,6 +155,10 @@ GOLDEN = [
      bits(18, 8), None),
     ("golden-if-condition-effects-kept", "pub fn main(z: u8) -> (u8, u8) { let mut n = 5u8; let r = if { n = n + 1u8; n > 5u8 } { n + 10u8 } else { n + 20u8 }; (r, n) }",
      bits(16, 8) + bits(6, 8), None),
+    ("golden-else-if-then-operator", "pub fn main(z: u8) -> (u8, u8, u8) { let a = z == z; let b = z != z; let r = if a { 1u8 } else if b { 2u8 } else { 3u8 } + 10u8; let s = if b { 1u8 } else if a { 2u8 } else { 3u8 } + 10u8; let t = 1u8 + if b { 1u8 } else if b { 2u8 } else { 3u8 } * 3u8; (r, s, t) }",
+     bits(11, 8) + bits(12, 8) + bits(10, 8), None),
+    ("golden-usize-max-literal", "pub fn main(z: u8) -> (bool, usize) { let m = 4294967295usize; (m > 4294967294usize, m) }",
+     "1" + bits(4294967295, 32), None),
     ("golden-assign-zero-sized", "pub fn main(z: u8) -> u8 { let mut a = [(); 3]; a[1usize] = (); 7u8 }",
      bits(7, 8), None),
     ("golden-short-circuit", "pub fn main(z: u8) -> (bool, u8, bool, u8) { let mut x = 1u8; let r = false && ({ x = 9u8; true }); let mut y = 1u8; let s = true || ({ y = 9u8; false }); (r, x, s, y) }",
